@@ -108,6 +108,9 @@ func buildOrCount(c *ShardCtx, text string, gen core.Gen) *core.Built {
 	}
 	if b.Panic != "" {
 		c.Res.Counters["tool_panic"]++
+		if c.Res.ToolPanic == "" {
+			c.Res.ToolPanic = fmt.Sprintf("%s on grammar %q with flags %s", b.Panic, oneLine(text), gen.String())
+		}
 		return nil
 	}
 	if b.Err != "" {
